@@ -209,40 +209,40 @@ func c06BodyMarks(c *Ctx) {
 			continue
 		}
 		for _, fn := range c.P.expandedFuncs(root) {
-		if bmDone[fn] {
-			continue
-		}
-		bmDone[fn] = true
-		for _, b := range fn.Blocks {
-			for _, ins := range b.Instrs {
-				call, ok := ins.(*ssa.Call)
-				if !ok || call.Call.StaticCallee() != dec {
-					continue
-				}
-				body := call.Call.Args[0]
-				// only child block bodies (loaded from a Block's Body field)
-				if !strings.HasSuffix(pathName(body), ".Body") {
-					continue
-				}
-				n++
-				name := FuncName(fn)
-				c.Fn(name)
-				wrapped := false
-				for _, r := range *call.Referrers() {
-					ex, ok := r.(*ssa.Extract)
-					if !ok || ex.Index != 0 {
+			if bmDone[fn] {
+				continue
+			}
+			bmDone[fn] = true
+			for _, b := range fn.Blocks {
+				for _, ins := range b.Instrs {
+					call, ok := ins.(*ssa.Call)
+					if !ok || call.Call.StaticCallee() != dec {
 						continue
 					}
-					for _, r2 := range *ex.Referrers() {
-						if c2, ok := r2.(*ssa.Call); ok && c2.Call.StaticCallee() == prep && sameCell(c2.Call.Args[1], body) {
-							wrapped = true
+					body := call.Call.Args[0]
+					// only child block bodies (loaded from a Block's Body field)
+					if !strings.HasSuffix(pathName(body), ".Body") {
+						continue
+					}
+					n++
+					name := FuncName(fn)
+					c.Fn(name)
+					wrapped := false
+					for _, r := range *call.Referrers() {
+						ex, ok := r.(*ssa.Extract)
+						if !ok || ex.Index != 0 {
+							continue
+						}
+						for _, r2 := range *ex.Referrers() {
+							if c2, ok := r2.(*ssa.Call); ok && c2.Call.StaticCallee() == prep && sameCell(c2.Call.Args[1], body) {
+								wrapped = true
+							}
 						}
 					}
+					c.Check(wrapped, "bodymarks", name+":call[decode(childBlock.Body)]", call.Pos(), "result passes through prepareBodyVal",
+						"decoded child block value does not pass through prepareBodyVal(val, childBlock.Body): marks of a dynamic block's for_each value are dropped from the decoded block")
 				}
-				c.Check(wrapped, "bodymarks", name+":call[decode(childBlock.Body)]", call.Pos(), "result passes through prepareBodyVal",
-					"decoded child block value does not pass through prepareBodyVal(val, childBlock.Body): marks of a dynamic block's for_each value are dropped from the decoded block")
 			}
-		}
 		}
 	}
 	c.Floor("bodymarks sites", n, 5, "BlockSpec, BlockListSpec, BlockTupleSpec, BlockSetSpec, BlockMapSpec, BlockObjectSpec")
